@@ -150,3 +150,72 @@ def c10(tier, seed):
         "decrypt_block(encrypt_block(b)) and encrypt_block(decrypt_block(b)) are evaluated with the whole subkey array "
         "and the block as free symbols; the result must normalise to the original block bits. 3 sizes x 2 orders x "
         "{unrolled, no_unroll}.", trusted_base=["engine/bv.py laws", "engine/models.py"], coverage_extra={"exhaustive": True})
+
+
+from . import check_chacha
+
+
+@check("C14")
+def c14(tier, seed):
+    r = Report("C14", tier, TV, seed)
+    if tier == "thorough":
+        plan = [("K1", list(range(0, 11))), ("K2", list(range(0, 11)))]
+    else:
+        plan = [("K1", [0, 1, 4, 10]), ("K2", [0, 10])]
+    n = 0
+    for cfg, drs in plan:
+        check_chacha.c14(r, cfg, drs)
+        n += 3 * len(drs)
+    r.floor("(function, drounds, config) instances", len(r.holds) + len(r.violations), n)
+    r.assumptions = ["spec/chacha.py transcribes the ChaCha block function (validated against RFC 7539 vectors in setup)",
+                     "intrinsic models, normalisation laws", "little-endian target (the cfg(target_endian=big) twins of add_pos/d0123 are not compiled here and are NOT analysed)"]
+    r.note("big-endian variants of add_pos and d0123 are cfg'd out on this target: not analysed, not counted as passed")
+    return r.finish(
+        "ChaCha::refill4 and ChaCha::refill are evaluated through their run-time dispatch (every arm is followed; "
+        "CPU-feature detection results are free boolean symbols and the arms are joined with if-then-else, which only "
+        "collapses when all arms give the same graph) on a symbolic state for each listed number of double rounds. "
+        "R14.1: the 256 output bytes equal four ChaCha blocks at counter+0..3 (64-bit counter addition, stream-id words "
+        "untouched) and the state becomes counter+4. R14.2: refill emits the block at the counter and leaves counter+1. "
+        "R14.3: four refills and one refill4 from the same state give identical bytes and identical final states. "
+        "Any overflow/bounds Assert depending on operand values is a violation. K1 = x86 (AVX2/AVX/SSE4.1/SSSE3/SSE2 arms), "
+        "K2 = portable backend.", trusted_base=["spec/chacha.py", "engine/models.py", "engine/bv.py"],
+        coverage_extra={"exhaustive": tier == "thorough"})
+
+
+@check("C15")
+def c15(tier, seed):
+    r = Report("C15", tier, TV, seed)
+    for cfg in ("K1", "K2"):
+        check_chacha.c15(r, cfg)
+    r.floor("rule instances", len(r.holds) + len(r.violations), 8)
+    return r.finish(
+        "set_stream_param / get_stream_param on a symbolic state for param 0 and 1: the state after set differs from "
+        "the state before exactly in d words (2p, 2p+1) = value, get returns those words, the other parameter and the "
+        "key rows are untouched (hence the following output equals that of a state created with those values, the "
+        "output being a function of the state). stream32_eq / stream64_eq on two symbolic states must be exactly the "
+        "conjunction of bit equalities of b, c and d words {1,2,3} resp. {2,3} (conjunctions are canonical n-ary sets, so "
+        "operand order and word grouping do not matter). K1 and K2.",
+        trusted_base=["engine/bv.py", "engine/models.py"], coverage_extra={"exhaustive": True})
+
+
+@check("C01")
+def c01(tier, seed):
+    r = Report("C01", tier, TV, seed)
+    check_chacha.c01_new(r, "K1")
+    check_chacha.c14(r, "K1", [4, 6, 10])      # the block function at the three declared round counts
+    if tier == "thorough":
+        check_chacha.c01_new(r, "K2")
+        check_chacha.c01_stream(r, "K1", [0, 1, 63, 64, 65, 255, 256, 257, 321, 600])
+        check_chacha.c01_stream(r, "K2", [1, 65, 321])
+    else:
+        check_chacha.c01_stream(r, "K1", [1, 65, 321])
+    r.floor("rule instances", len(r.holds) + len(r.violations), 23)
+    r.assumptions = ["spec/chacha.py (block function, HChaCha) validated against RFC 7539 / XChaCha vectors",
+                     "which keystream byte meets which data byte over arbitrary call histories is C02's subject; here only single requests from a fresh cipher are covered"]
+    return r.finish(
+        "R1.4: NewCipher::new of each of the 7 aliases on symbolic key and nonce yields state rows (key words LE, "
+        "counter 0, nonce words; for XChaCha the HChaCha subkey with the alias's round count and nonce tail) and buffer "
+        "bookkeeping as specified. R14.x at drounds 4/6/10: the block function. R1.5: try_apply_keystream of a fresh "
+        "cipher on symbolic data of each listed length yields exactly data ^ keystream (block i = block function at "
+        "counter i with the alias's rounds, little-endian), which also fixes the round count each alias passes down and "
+        "that nothing but XOR touches the data.", trusted_base=["spec/chacha.py", "engine/models.py", "engine/bv.py"])
